@@ -5,6 +5,7 @@ pub mod case;
 pub mod driver;
 pub mod dump;
 pub mod exec;
+pub mod faults;
 pub mod wgen;
 pub mod props;
 pub mod rng;
@@ -191,7 +192,7 @@ fn main() {
             let index: u64 = arg_val(&args, "--index").and_then(|s| s.parse().ok()).unwrap_or(0);
             let seed = arg_val(&args, "--seed")
                 .and_then(|s| s.parse().ok())
-                .unwrap_or_else(|| rng::run_seed(verif_seed(), &id, index));
+                .unwrap_or_else(|| rng::run_seed(verif_seed(), &id, index / prop.group()));
             let c = prop.generate(seed, index, Tier::Quick);
             println!("{}", serde_json::to_string_pretty(&c.to_json()).unwrap());
         }
